@@ -5,6 +5,7 @@ import (
 	"fmt"
 	"io"
 	"net"
+	"syscall"
 	"time"
 
 	"storj.io/drpc/verifsim"
@@ -22,6 +23,8 @@ type Net struct {
 	EmptyReads bool // allow (0,nil) reads
 	Stats      NetStats
 	Endpoints  []*Endpoint
+	// EmptyHeavy: every other read or so returns (0, nil) (never many in a row)
+	EmptyHeavy bool
 	// OnWrite is called with every buffer handed to Write (monitors).
 	OnWrite func(e *Endpoint, p []byte)
 	// OnAccept is called with bytes as they are accepted into the peer's queue
@@ -63,8 +66,31 @@ type Fault struct {
 
 var errInjected = errors.New("injected transport failure")
 
+// injected read/write errors come in the shapes real transports produce; which
+// one is a function of the fault's position (no extra decision)
+type timeoutErr struct{}
+
+func (timeoutErr) Error() string   { return "injected transport failure: i/o timeout" }
+func (timeoutErr) Timeout() bool   { return true }
+func (timeoutErr) Temporary() bool { return true }
+
+func faultErr(f *Fault) error {
+	if f == nil {
+		return errInjected
+	}
+	switch (f.Op + f.Partial) % 4 {
+	case 1:
+		return &net.OpError{Op: "read", Net: "sim", Err: syscall.ECONNRESET}
+	case 2:
+		return &net.OpError{Op: "read", Net: "sim", Err: timeoutErr{}}
+	}
+	return errInjected
+}
+
 // Endpoint is one side of a simulated connection. It implements net.Conn.
 type Endpoint struct {
+	ReadsAfterFail int  // Read calls issued after the endpoint had failed
+	Spinning       bool // more than 200 of them: the caller spins on a failed transport
 	N    *Net
 	Name string
 	Peer *Endpoint
@@ -148,10 +174,10 @@ func (e *Endpoint) Read(p []byte) (int, error) {
 		switch flt.Kind {
 		case "read-err":
 			flt.Fired, flt.FiredOn, flt.FiredAt = true, "read", n.D.Step
-			e.failed = errInjected
+			e.failed = faultErr(flt)
 			n.Stats.ReadErr++
 			e.wakeAll()
-			return 0, errInjected
+			return 0, e.failed
 		case "local-close":
 			flt.Fired, flt.FiredOn, flt.FiredAt = true, "read", n.D.Step
 			e.doClose()
@@ -167,11 +193,23 @@ func (e *Endpoint) Read(p []byte) (int, error) {
 			n.RT.Mu.Unlock()
 			return 0, io.ErrClosedPipe
 		case e.failed != nil:
+			// a caller that keeps reading from a failed transport is parked once it
+			// is clear that it spins (the oracle reports it); otherwise the run
+			// would only exhaust its step budget
+			e.ReadsAfterFail++
+			if e.ReadsAfterFail > 200 {
+				e.Spinning = true
+				_, t := verifsim.Current()
+				if t != nil {
+					t.BlockOn("net.read-spin", e)
+					continue
+				}
+			}
 			n.RT.Mu.Unlock()
 			return 0, e.failed
 		case len(e.rq) > 0 && len(p) > 0:
 			n.RT.Mu.Unlock()
-			if n.EmptyReads && e.emptyRun < 3 && n.Ch.Bool("net", 0.03) {
+			if n.EmptyReads && e.emptyRun < 3 && n.Ch.Bool("net", n.emptyP()) {
 				e.emptyRun++
 				n.Stats.EmptyReads++
 				return 0, nil
@@ -211,8 +249,8 @@ func (e *Endpoint) Read(p []byte) (int, error) {
 			var err error
 			if flt != nil && flt.Op == op && flt.Kind == "read-err-data" && !flt.Fired {
 				flt.Fired, flt.FiredOn, flt.FiredAt = true, "read", n.D.Step
-				e.failed = errInjected
-				err = errInjected
+				e.failed = faultErr(flt)
+				err = e.failed
 				n.Stats.ReadErrWithData++
 			}
 			// space became available: wake a writer blocked on back-pressure
@@ -237,10 +275,10 @@ func (e *Endpoint) Read(p []byte) (int, error) {
 			// no data to attach the error to: deliver it alone
 			n.RT.Mu.Unlock()
 			flt.Fired, flt.FiredOn, flt.FiredAt = true, "read", n.D.Step
-			e.failed = errInjected
+			e.failed = faultErr(flt)
 			n.Stats.ReadErr++
 			e.wakeAll()
-			return 0, errInjected
+			return 0, e.failed
 		}
 		if t == nil {
 			n.RT.Mu.Unlock()
@@ -589,3 +627,10 @@ type tempErr struct{}
 func (tempErr) Error() string   { return "temporary accept failure" }
 func (tempErr) Timeout() bool   { return false }
 func (tempErr) Temporary() bool { return true }
+
+func (n *Net) emptyP() float64 {
+	if n.EmptyHeavy {
+		return 0.45
+	}
+	return 0.03
+}
